@@ -225,6 +225,13 @@ pub fn run(case: &str) -> String {
         std::thread::sleep(Duration::from_millis(2));
     }
     std::thread::sleep(Duration::from_millis(10));
+    // one run in six: the server is left alone for 1.3 s (longer than its reclaim interval) BEFORE it is stopped: by then it
+    // must have freed the record of every connection that has ended, by itself (round-6 seed C15-k: no wake-up while accepting)
+    let quiet = if salt % 6 == 0 {
+        std::thread::sleep(Duration::from_millis(1300));
+        let live = (crate::A64_ALLOCS.load(Ordering::SeqCst) - a64a0) as i64 - (crate::A64_FREES.load(Ordering::SeqCst) - a64f0) as i64;
+        if live == 0 { "ok".to_string() } else { format!("records-still-held:{live}") }
+    } else { "skipped".to_string() };
     stop.store(true, Ordering::SeqCst);
     let _ = connect();
     let t0 = Instant::now();
@@ -270,7 +277,7 @@ pub fn run(case: &str) -> String {
     let enc: Vec<String> = groups.iter().map(|(g, n)| if *n > 1 { format!("{}*{}", g.join(","), n) } else { g.join(",") }).collect();
     // what the allocator saw: allocations / deallocations of 64-byte-aligned blocks (the connection records) during this run
     let (reca, recf) = (crate::A64_ALLOCS.load(Ordering::SeqCst) - a64a0, crate::A64_FREES.load(Ordering::SeqCst) - a64f0);
-    format!("{} clients={} accepted={} freed={} dropped={} recalloc={} recfree={}", enc.join(";"), if bad.is_empty() { "ok".to_string() } else { format!("bad:{}", bad.join("/").replace(' ', "_")) }, acc, freed, dropped, reca, recf)
+    format!("{} clients={} accepted={} freed={} dropped={} recalloc={} recfree={} quiet={quiet}", enc.join(";"), if bad.is_empty() { "ok".to_string() } else { format!("bad:{}", bad.join("/").replace(' ', "_")) }, acc, freed, dropped, reca, recf)
 }
 
 pub fn gen(ctx: &Ctx) {
